@@ -41,7 +41,23 @@ pub fn assemble_dc_opts(
     g.label(format!("setup-form={setup_form}"));
     let before: Vec<String> = g.decls.iter().filter(|d| !d.after).map(|d| d.text.clone()).collect();
     let after: Vec<String> = g.decls.iter().filter(|d| d.after).map(|d| d.text.clone()).collect();
-    let mut s = String::from("import { defineComponent } from \"vue\";\n");
+    // other imports from 'vue' around the one that binds defineComponent must not matter
+    let mut s = String::new();
+    match g.c.pick(5) {
+        0 => {
+            g.label("second-vue-import-after");
+            s.push_str("import { defineComponent } from \"vue\";\nimport { h as vueH2 } from \"vue\";\n");
+        }
+        1 => {
+            g.label("second-vue-import-before");
+            s.push_str("import { h as vueH2 } from \"vue\";\nimport { defineComponent } from \"vue\";\n");
+        }
+        2 => {
+            g.label("type-only-vue-import-after");
+            s.push_str("import { defineComponent } from \"vue\";\nimport type { PropType, SetupContext } from \"vue\";\n");
+        }
+        _ => s.push_str("import { defineComponent } from \"vue\";\n"),
+    }
     s.push_str(extra_imports);
     if local {
         g.label("local-scope-with-decoys");
